@@ -27,6 +27,14 @@ import (
 	"verifharness/vh"
 )
 
+// Shape is the shape of a precertificate chain (SigVerify.tla, clause EntryFromChain).
+type Shape struct {
+	Iss   string `json:"iss"`   // direct, viaP, viaPf, viaPm
+	Order string `json:"order"` // std, poisonBeforeAki, poisonFirst
+}
+
+func (s Shape) std() bool { return s.Iss == "" || s == stdShape }
+
 // Case is one line of the export of MCSigVerify.tla.
 type Case struct {
 	C struct {
@@ -39,6 +47,7 @@ type Case struct {
 			N int    `json:"n"`
 			T string `json:"t"`
 		} `json:"mut"`
+		Shape Shape `json:"shape"`
 	} `json:"c"`
 	Expect string `json:"expect"` // verdict of the verification proper (Ctor / Create: of the call)
 	PKey   string `json:"pkey"`   // type of the presented key
@@ -81,10 +90,18 @@ func (c *Case) mutClass() string {
 		return "sig=" + sigClass(c.C.Mut.N)
 	case "key-other-type":
 		return "key-other-type=" + family(c.C.Mut.T)
-	case "field", "value":
+	case "field", "value", "unser":
 		return c.C.Mut.M + "=" + c.C.Mut.T
 	}
 	return c.C.Mut.M
+}
+
+// kindTag is the object kind, with the shape of the chain when it is not the standard one.
+func (c *Case) kindTag() string {
+	if c.C.Shape.std() {
+		return c.C.Kind
+	}
+	return fmt.Sprintf("%s[%s,%s]", c.C.Kind, c.C.Shape.Iss, c.C.Shape.Order)
 }
 
 type runner struct {
@@ -119,7 +136,7 @@ func call(f func() error) (got string, detail string) {
 
 func (r *runner) check(path string, c *Case, idx int, want string, p *presented, f func() error) string {
 	got, detail := call(f)
-	r.rep.Eval(fmt.Sprintf("%s|%s|%s|%s|%s", path, c.C.Kind, c.C.Key, c.mutClass(), want))
+	r.rep.Eval(fmt.Sprintf("%s|%s|%s|%s|%s", path, c.kindTag(), c.C.Key, c.mutClass(), want))
 	if got == want {
 		return got
 	}
@@ -127,7 +144,7 @@ func (r *runner) check(path string, c *Case, idx int, want string, p *presented,
 	if got == "panic" {
 		site = "panic"
 	}
-	fp := fmt.Sprintf("%s:%s:%s:%s:%s:want=%s:got=%s", site, path, c.C.Kind, c.C.Key, c.mutClass(), want, got)
+	fp := fmt.Sprintf("%s:%s:%s:%s:%s:want=%s:got=%s", site, path, c.kindTag(), c.C.Key, c.mutClass(), want, got)
 	if c.C.Mut.M == "value" && c.C.Mut.T == "inner-trailing" && want == "error" && got == "ok" {
 		// one defect whatever the entry point: the DER (r, s) parser does not look at what follows s inside the SEQUENCE
 		fp = "verify:der-inner-trailing-accepted:" + family(c.C.Key)
@@ -145,7 +162,7 @@ func (r *runner) check(path string, c *Case, idx int, want string, p *presented,
 		}
 	}
 	r.rep.Violate(fp, fmt.Sprintf("%s on %s signed by a %s key with %s, mutation %s (allow non-compliant keys = %v): the specification says %s, the code says %s %s",
-		path, c.C.Kind, c.C.Key, hashClass(c.C.Hash), c.mutClass(), c.C.Allow, want, got, detail), rp)
+		path, c.kindTag(), c.C.Key, hashClass(c.C.Hash), c.mutClass(), c.C.Allow, want, got, detail), rp)
 	return got
 }
 
@@ -201,6 +218,8 @@ func (r *runner) mutate(w *world, c *Case, base *fields, signer *keyPair, val []
 	case "none":
 	case "field":
 		p.f, err = w.mutateField(base, c.C.Mut.T)
+	case "unser":
+		p.f, err = w.unserField(base, c.C.Mut.T)
 	case "key-same-type":
 		p.key = r.kr[c.C.Key][1]
 	case "key-other-type":
@@ -210,6 +229,22 @@ func (r *runner) mutate(w *world, c *Case, base *fields, signer *keyPair, val []
 	case "sig":
 		p.sig = c.C.Mut.N
 	case "value":
+		if c.C.Mut.T == "glued" {
+			// a genuine signature over other bytes that end with the canonical ones: what the step before, refused
+			// part-way, would have left behind (sessions), else the object's own leading fields or arbitrary bytes
+			msg, _ := base.msg()
+			prefix := w.residue
+			if prefix == nil {
+				if n := w.rng.Intn(3); n == 0 && len(msg) > 12 {
+					prefix = msg[:12]
+				} else {
+					prefix = make([]byte, 1+w.rng.Intn(16))
+					w.rng.Read(prefix)
+				}
+			}
+			p.val, err = refSign(signer, c.C.Hash, ref.Cat(prefix, msg))
+			break
+		}
 		p.val, err = mutateValue(c.C.Mut.T, val, signer, w.rng)
 	default:
 		err = fmt.Errorf("unknown mutation %q", c.C.Mut.M)
@@ -234,14 +269,20 @@ func (r *runner) verifyCase(w *world, c *Case, idx int) {
 		emb  *embedded
 	}
 	var routes []route
+	sh := c.C.Shape
 	switch {
-	case isSCT && (entryTypeMut || w.rng.Intn(6) == 0):
+	case isSCT && (entryTypeMut || (sh.std() && w.rng.Intn(6) == 0)):
 		routes = append(routes, route{"synthetic", w.baseline(kind, true), nil})
 	default:
-		routes = append(routes, route{"", w.baseline(kind, false), nil})
+		routes = append(routes, route{"", w.baselineShape(kind, false, sh), nil})
 	}
-	if kind == "SCTprecert" && !entryTypeMut {
-		e, err := w.newEmbedded()
+	// the embedded form has no precertificate issuer of its own: the order is the position of the SCT list
+	if kind == "SCTprecert" && !entryTypeMut && (sh.std() || sh.Iss == "direct") {
+		order := "std"
+		if !sh.std() {
+			order = sh.Order
+		}
+		e, err := w.newEmbeddedOrder(order)
 		if err != nil {
 			r.infra("embedded certificate: %v", err)
 			return
@@ -334,14 +375,24 @@ func (r *runner) sctPaths(w *world, c *Case, idx int, p *presented, route string
 		// certificate (tbs), its issuer (issuerkeyhash) or anything inside the SCT
 		e := emb
 		if c.C.Mut.M == "field" && c.C.Mut.T == "tbs" {
-			e2, err := w.newEmbedded()
+			e2, err := w.newEmbeddedOrder(emb.order)
 			if err != nil {
 				r.infra("embedded certificate: %v", err)
 				return
 			}
 			e = e2
 		}
-		final, err := e.final(p.sctBytes())
+		sctb := p.sctBytes()
+		if p.f.unser != "" {
+			if p.f.unser != "extensions" {
+				return // no certificate stands for an entry with an empty TBSCertificate or an undefined type
+			}
+			// an SCT that has no encoding cannot be embedded: the certificate carries the SCT as signed
+			q := *p
+			q.f = base
+			sctb = q.sctBytes()
+		}
+		final, err := e.final(sctb)
 		if err != nil {
 			r.infra("embedded certificate: %v", err)
 			return
@@ -434,7 +485,9 @@ func neededKeyTypes(cases []Case) ([]string, map[string]bool) {
 }
 
 const rule = "every case of the decision table of SigVerify.tla (object kind x signer key type x signing hash x single mutation x " +
-	"opt-in flag; constructor table; CreateSignature table) executed with real keys: object encoded and signed with the standard " +
+	"opt-in flag; shape of the precertificate chain: issued directly / by a precertificate signing certificate of three kinds x " +
+	"poison or embedded SCT list last / before the authority key identifier / first, signed bytes derived independently from the " +
+	"verbatim DER; unencodable field values refused; constructor table; CreateSignature table) executed with real keys: object encoded and signed with the standard " +
 	"library, mutation applied to the real bytes, verdict of tls.VerifySignature, ct.NewSignatureVerifier, " +
 	"SignatureVerifier.VerifySCTSignature/VerifySTHSignature, loglist3.NewFromSignedJSON, ctutil.VerifySCT(WithVerifier) " +
 	"(plain, precertificate and embedded), ctutil.NewLogInfo/LogInfo.VerifySCTSignature compared with the table; plus seeded " +
